@@ -2,3 +2,4 @@ import Properties.C18
 import Properties.C15
 import Properties.C14
 import Properties.C09
+import Properties.C19
